@@ -87,6 +87,9 @@ CLAIMED = {
     "C20": ("Coq proof (the front is a function of the set of candidates: permutation invariance; filtering pieces before the union loses nothing; index-tagged collection from C32) + differential mapper runs across worker counts, forced arrival orders, hash seeds and cache states",
             "C20_order_independent, C20_split; map_workload_to_arch is run in separate processes with 1/4/16 workers, hook H1 permuting job arrival, PYTHONHASHSEED 0/1/12345, cold and warm cache_dir; sorted objective vectors and mapping structures must be identical. PARTIAL: process pools, pickling, OS scheduling and the disk cache are runtime behaviour outside any Gallina model.",
             "Coq kernel; hook H1; fix F12 (tie-break depended on job completion order) found by this check"),
+    "C09": ("Coq proof (the verdict table, the Min/Max any/all rules and ComparisonResult.__or__ are sound pointwise for sound leaf answers; UNKNOWN always allowed; refuted witnesses for ceiling erasure, uniform Heaviside substitution and corner plugging) + the real comparator against brute-force evaluation on every integer point",
+            "C09_table_sound, C09_min_max_sound, C09_or_sound, C09_unknown_allowed, C09_ceiling_erasure_refuted, C09_heaviside_refuted, C09_corner_needs_sign_constant_formula; the real geq_leq_zero / diff_geq_leq_zero are run on random formulas of the kinds the cost model emits over integer boxes and every non-UNKNOWN verdict is checked at every integer point (finite differences for derivative verdicts). Known findings F5 (ceiling erasure) and F13 (one substitution for all Heaviside terms). PARTIAL: sympy's function_range / relational evaluation are oracles.",
+            "Coq kernel; formulas as value functions over the box; sympy trusted as leaf oracle and checked end to end"),
 }
 
 PENDING_REASON = "check not built yet in this round (planned, see DESIGN.md section 6); not claimed until its proof and correspondence exist"
